@@ -18,7 +18,7 @@ IsEv(e) == l <= Len(Tr) /\ Tr[l].ev = e /\ l' = l + 1
 Silent == /\ l' = l
           /\ \/ TryD \/ AwaitD \/ Deploy \/ PostDeploy \/ AwaitE \/ TryR \/ AwaitR \/ ReadSchema
              \/ AwaitRes \/ CancelSend \/ AwaitResCancel \/ DeferClose
-             \/ ExecCloseSig \/ ExecPublish \/ ExecDone
+             \/ ExecCloseSig \/ ExecPublish \/ ExecDone \/ ExecNeverReached
              \/ \E c \in Closers : CloseCancel(c)
 
 \* assignment of stage/state under the step lock
@@ -44,7 +44,8 @@ TPlugEnd == /\ IsEv("XExecEnd")
             /\ IF Ev.out = "cancelled_early" THEN PluginCancelled
                ELSE PluginReturn /\ execRes' = (IF Ev.out = "<crash>" THEN "err" ELSE Ev.out)
 TPlugAbort == IsEv("XExecAbort") /\ ExecAbort
-TNext == Silent \/ TSet \/ TNotif \/ TProv \/ TClose \/ TCloseRet \/ TExit \/ TPlugEnd \/ TPlugAbort
+TPlugStart == IsEv("XExecStart") /\ PluginStart
+TNext == Silent \/ TSet \/ TNotif \/ TProv \/ TClose \/ TCloseRet \/ TExit \/ TPlugEnd \/ TPlugAbort \/ TPlugStart
 TSpec == TInit /\ [][TNext]_tvars
 HighWater == TLCSet(1, Max(TLCGet(1), l))
 Accepted == PrintT(<<"HW", TLCGet(1), Len(Tr)>>) /\ TLCGet(1) = Len(Tr) + 1
